@@ -371,6 +371,38 @@ theorem step_ignores_foreign_field (c : Cfg) (s : St) (obs obs' : Nat → Obs) (
     | zero => rfl
     | succ n ih => simp only [run, ih, rtbStep, (h n).1, (h n).2]
 
+/-! ## hardening pass 2: interrupted driver loops (a body that raises), copies -/
+
+/-- a loop entered with the flag false does nothing, whatever the fuel -/
+theorem loop_stopped (stepf : St → Obs → St) (obs : Nat → Obs) (fuel i : Nat) (s : St) (hs : s.cont = false) :
+    loop stepf obs fuel i s = (i, s) := by
+  cases fuel with
+  | zero => rfl
+  | succ f => simp [loop, hs]
+
+/-- **Atomicity of an interrupted driver loop.** If the body of a driver loop raises in iteration `a` (the
+optimizer / LQR / kNN raises *before* the controller is stepped — the only place a valid use can raise) the
+controller is exactly where the `a` completed iterations left it, and entering the loop again (`optimize` called
+again) continues as if nothing had happened: `a` iterations followed by a resumed loop = one uninterrupted loop. -/
+theorem loop_resume_after_interrupt (stepf : St → Obs → St) (obs : Nat → Obs) (a b i : Nat) (s : St) :
+    loop stepf obs (a + b) i s
+      = loop stepf obs b (loop stepf obs a i s).1 (loop stepf obs a i s).2 := by
+  induction a generalizing i s with
+  | zero => simp [loop]
+  | succ a ih =>
+    rw [Nat.succ_add]
+    cases hc : s.cont with
+    | true => simp only [loop, hc, if_true]; exact ih (i+1) (stepf s (obs i))
+    | false =>
+      simp only [loop, hc, Bool.false_eq_true, if_false]
+      exact (loop_stopped stepf obs b i s hc).symm
+
+/-- **Copies are independent.** A controller's future is a function of its own state and its own observations only
+(`run` takes nothing else): two controllers in the same state — an original and its copy — fed different
+continuations each follow the law of a single controller fed (common prefix ++ own continuation). -/
+theorem copy_follows_own_history (stepf : St → Obs → St) (s : St) (pre post : List Obs) :
+    (pre ++ post).foldl stepf s = post.foldl stepf (pre.foldl stepf s) := List.foldl_append
+
 /-! ## what the driver executes is the model the theorems are about -/
 
 /-- the executable trace on a list is the sequence of `run` states -/
